@@ -292,3 +292,183 @@ theorem fragLoop_attempts (len pos sb : Nat) (faults : List Fault) :
   | case7 => simp
 
 end Frag
+
+namespace Frag
+theorem recvFollow_shape (sys total : Nat) (buf : List α) (q : List (List α)) (eof : Bool) :
+    (recvFollow sys total buf q eof).shape = recvFollowN sys total buf.length (q.map List.length) eof := by
+  induction q generalizing buf with
+  | nil => simp only [recvFollow, recvFollowN, List.map]; split <;> (try split) <;> simp [RRes.shape]
+  | cons p q ih =>
+    simp only [recvFollow, recvFollowN, List.map]
+    split
+    · split
+      · simp [RRes.shape]
+      · split
+        · simp [RRes.shape]
+        · rw [ih]; simp
+    · simp [RRes.shape]
+
+/-- the size-level receiver run by the driver is the shape of the data-level receiver of the theorems -/
+theorem recvMsg_shape (sys : Nat) (p : FirstPkt α) (ded : List (List α)) (eof : Bool) :
+    (recvMsg sys p ded eof).shape = recvMsgN sys p.total p.payload.length p.hasDed (ded.map List.length) eof := by
+  unfold recvMsg recvMsgN
+  split
+  · simp [RRes.shape]
+  · split
+    · simp [RRes.shape]
+    · split
+      · simp [RRes.shape]
+      · split
+        · simp [RRes.shape]
+        · exact recvFollow_shape _ _ _ _ _
+end Frag
+
+namespace Frag
+open Gen Arith
+
+/-- size of the packet an attempt hands to the kernel (header included for packets on the channel socket) -/
+def attBytes : Att → Nat
+  | .single len _ => 8 + len
+  | .sock => 0
+  | .first lo hi _ _ => 8 + (hi - lo)
+  | .follow lo hi _ => hi - lo
+
+/-- an attempt's slice is inside the data and non-empty -/
+def attInRange (len : Nat) : Att → Prop
+  | .single l _ => l = len
+  | .sock => True
+  | .first lo hi total _ => lo = 0 ∧ lo < hi ∧ hi ≤ len ∧ total = len
+  | .follow lo hi _ => 0 < lo ∧ lo < hi ∧ hi ≤ len
+
+/-- every slice the loop takes is in range and non-empty, and every packet fits the kernel's limit `fragment_size(sys)` -/
+theorem fragLoop_bounds (sys len pos sb : Nat) (faults : List Fault)
+    (hsys : sys < 2^64) (hsb : 1000 ≤ sb) (hle : sb ≤ sys)
+    (h0 : pos = 0 → firstFragmentSize sb < len) (hpl : pos ≤ len) :
+    ∀ a ∈ (fragLoop len pos sb faults).2, attInRange len a ∧ attBytes a ≤ fragmentSize sys := by
+  fun_induction fragLoop len pos sb faults with
+  | case1 pos sb faults hlt endp f rest att hprog hf r ih =>
+    have he := endPos_ok len pos sb hlt hsb (by omega) h0
+    have hb := ffs_lt sb hsb (by omega)
+    have hm := fs_mono sb sys hle
+    have ih' := ih hsb hle (by intro h; omega) hprog.2
+    intro a ha
+    simp only [List.mem_cons] at ha
+    rcases ha with rfl | ha
+    · simp only [att, mkAtt]
+      split
+      · rename_i hp
+        have := he.2.2.2.1 hp
+        simp only [attInRange, attBytes]; refine ⟨⟨trivial, ?_, hprog.2, trivial⟩, ?_⟩ <;> omega
+      · rename_i hp
+        have := he.2.2.2.2 hp
+        simp only [attInRange, attBytes]; refine ⟨⟨?_, hprog.1, hprog.2⟩, ?_⟩ <;> omega
+    · exact ih' a ha
+  | case2 pos sb faults hlt endp f rest att hprog hf sb' hd hsb' r ih =>
+    have he := endPos_ok len pos sb hlt hsb (by omega) h0
+    have hb := ffs_lt sb hsb (by omega)
+    have hm := fs_mono sb sys hle
+    have hs := downsize_spec _ _ _ hd
+    have hsb1 : 1000 ≤ sb' := hs.2.2.2 he.2.2.1
+    have ih' := ih hsb1 (by omega) (by
+      intro hp
+      have : endp = firstFragmentSize sb := he.2.2.2.1 hp
+      have hb' := ffs_lt sb' hsb1 (by omega)
+      have h1 := hs.2.1
+      unfold sentSize at h1
+      rw [fs_eq] at hb'
+      omega) hpl
+    intro a ha
+    simp only [List.mem_cons] at ha
+    rcases ha with rfl | ha
+    · simp only [att, mkAtt]
+      split
+      · rename_i hp
+        have := he.2.2.2.1 hp
+        simp only [attInRange, attBytes]; refine ⟨⟨trivial, ?_, hprog.2, trivial⟩, ?_⟩ <;> omega
+      · rename_i hp
+        have := he.2.2.2.2 hp
+        simp only [attInRange, attBytes]; refine ⟨⟨?_, hprog.1, hprog.2⟩, ?_⟩ <;> omega
+    · exact ih' a ha
+  | case3 pos sb faults hlt endp f att hprog hf sb' hd hnsb =>
+    exfalso
+    have he := endPos_ok len pos sb hlt hsb (by omega) h0
+    have hs := downsize_spec _ _ _ hd
+    unfold sentSize at hs he
+    omega
+  | case4 pos sb faults hlt endp f att hprog hf hd =>
+    have he := endPos_ok len pos sb hlt hsb (by omega) h0
+    have hb := ffs_lt sb hsb (by omega)
+    have hm := fs_mono sb sys hle
+    intro a ha
+    simp only [List.mem_singleton] at ha
+    subst ha
+    simp only [att, mkAtt]
+    split
+    · rename_i hp
+      have := he.2.2.2.1 hp
+      simp only [attInRange, attBytes]; refine ⟨⟨trivial, ?_, hprog.2, trivial⟩, ?_⟩ <;> omega
+    · rename_i hp
+      have := he.2.2.2.2 hp
+      simp only [attInRange, attBytes]; refine ⟨⟨?_, hprog.1, hprog.2⟩, ?_⟩ <;> omega
+  | case5 pos sb faults hlt endp f att hprog hf =>
+    have he := endPos_ok len pos sb hlt hsb (by omega) h0
+    have hb := ffs_lt sb hsb (by omega)
+    have hm := fs_mono sb sys hle
+    intro a ha
+    simp only [List.mem_singleton] at ha
+    subst ha
+    simp only [att, mkAtt]
+    split
+    · rename_i hp
+      have := he.2.2.2.1 hp
+      simp only [attInRange, attBytes]; refine ⟨⟨trivial, ?_, hprog.2, trivial⟩, ?_⟩ <;> omega
+    · rename_i hp
+      have := he.2.2.2.2 hp
+      simp only [attInRange, attBytes]; refine ⟨⟨?_, hprog.1, hprog.2⟩, ?_⟩ <;> omega
+  | case6 pos sb faults hlt endp f att hnprog =>
+    exfalso
+    have he := endPos_ok len pos sb hlt hsb (by omega) h0
+    exact hnprog ⟨he.1, he.2.1⟩
+  | case7 => simp
+
+theorem sendLoop_bounds (sys len : Nat) (faults : List Fault) (h : 1000 ≤ sys) (h64 : sys < 2^64) :
+    ∀ a ∈ (sendLoop sys len faults).2, attInRange len a ∧ attBytes a ≤ fragmentSize sys := by
+  have hb := ffs_lt sys h h64
+  unfold sendLoop
+  split
+  · rename_i hs
+    have hs' : len ≤ firstFragmentSize sys := by simpa [singleTest] using hs
+    split
+    · intro a ha; simp at ha; subst ha; simp [attInRange, attBytes]; omega
+    · intro a ha; simp at ha; subst ha; simp [attInRange, attBytes]; omega
+    · rename_i rest _
+      split
+      · rename_i sb' hd
+        have hsp := downsize_spec _ _ _ hd
+        have h1000 : 1000 ≤ sb' := hsp.2.2.2 (by omega)
+        have := fragLoop_bounds sys len 0 sb' rest h64 h1000 (by omega)
+          (by intro _; have := ffs_lt sb' h1000 (by omega); rw [fs_eq] at this; omega) (by omega)
+        intro a ha
+        simp only [List.mem_cons] at ha
+        rcases ha with rfl | rfl | ha
+        · simp [attInRange, attBytes]; omega
+        · simp [attInRange, attBytes]
+        · exact this a ha
+      · intro a ha; simp at ha; subst ha; simp [attInRange, attBytes]; omega
+  · rename_i hs
+    have hs' : firstFragmentSize sys < len := by simpa [singleTest] using hs
+    have := fragLoop_bounds sys len 0 sys faults h64 h (by omega) (by intro _; exact hs') (by omega)
+    intro a ha
+    simp only [List.mem_cons] at ha
+    rcases ha with rfl | ha
+    · simp [attInRange, attBytes]
+    · exact this a ha
+
+theorem sendLoop_nofault (sys len : Nat) : (sendLoop sys len []).1 ≠ .err := by
+  unfold sendLoop
+  split
+  · simp [nextFault]
+  · have := fragLoop_nofault len 0 sys [] (by simp)
+    simpa using this
+
+end Frag
